@@ -20,7 +20,9 @@ def correspondence(ctx):
     _spec.loader.exec_module(mod)
     quick = ctx.tier == 'quick'
     seed = ctx.rng.randrange(1, 10 ** 5)
-    cs = mod.cases(seed, 20 if quick else 240)
+    cs = common.safe_cases(ctx, NAME, lambda: mod.cases(seed, 20 if quick else 240))
+    if cs is None:
+        return
     nops = sum(len(c['ops']) for c in cs)
     for c in cs:
         ctx.case(('reloc', len(c['ops']) // 4, c['fin'] is not None), True)
